@@ -585,7 +585,10 @@ func plain(tag byte, n int) []byte {
 	return b
 }
 
+var sawPartial string // set when the callback of the last runTransform was handed something else than the file's contents
+
 func runTransform(c tfCase) (ops []fos.Op, terr error, final []byte, fail *vt.Fail) {
+	sawPartial = ""
 	d := filepath.Join(cachekit.Scratch(), fmt.Sprintf("c07f-%d", os.Getpid()))
 	os.MkdirAll(d, 0o777)
 	p := filepath.Join(d, "file")
@@ -603,7 +606,8 @@ func runTransform(c tfCase) (ops []fos.Op, terr error, final []byte, fail *vt.Fa
 		}()
 		terr = lockedfilex.Transform(p, func(got []byte) ([]byte, error) {
 			if !bytes.Equal(got, old) {
-				// a failed read cannot reach here; a short read would
+				// a failed read cannot reach here; a short read taken for the whole would
+				sawPartial = fmt.Sprintf("the callback was handed %d bytes, the file holds %d", len(got), len(old))
 				return nil, fmt.Errorf("callback saw %d bytes, file holds %d", len(got), len(old))
 			}
 			if c.CbErr {
@@ -618,12 +622,18 @@ func runTransform(c tfCase) (ops []fos.Op, terr error, final []byte, fail *vt.Fa
 }
 
 func checkTF(c tfCase) *vt.Fail {
-	if c.OldLen < 0 || c.NewLen < 0 || c.OldLen > 1<<20 || c.NewLen > 1<<20 || (c.Kind != int(fos.None) && c.Kind != int(fos.FailBefore) && c.Kind != int(fos.ShortWriteThenFail)) {
+	if c.OldLen < 0 || c.NewLen < 0 || c.OldLen > 1<<20 || c.NewLen > 1<<20 || (c.Kind != int(fos.None) && c.Kind != int(fos.FailBefore) && c.Kind != int(fos.ShortWriteThenFail) && c.Kind != int(fos.ShortRead)) {
 		return nil
 	}
 	ops, terr, final, f := runTransform(c)
 	if f != nil {
 		return f
+	}
+	if sawPartial != "" {
+		return vt.Failf("callback-saw-partial-contents", "Transform applied its function to something else than the latest contents: %s (old=%d bytes, fault op %d kind=%s cut=%d)", sawPartial, c.OldLen, c.K, fos.Kind(c.Kind), c.Cut)
+	}
+	if c.Kind == int(fos.ShortRead) && terr != nil && !c.CbErr {
+		return vt.Failf("short-read-made-transform-fail", "a read that returned fewer bytes than asked for (no error) made Transform fail: %v (old=%d bytes, fault op %d cut=%d)", terr, c.OldLen, c.K, c.Cut)
 	}
 	old, nw := plain('A', c.OldLen), plain('a', c.NewLen)
 	op := "none"
@@ -688,6 +698,17 @@ func TestTransformFaults(t *testing.T) {
 			for k := range ops {
 				kinds := []fos.Kind{fos.FailBefore}
 				cuts := []int{0}
+				if strings.HasPrefix(ops[k].Desc, "Read(") && r[0] > 1 {
+					// a legal short read of 1 byte, and of half the contents
+					for _, cut := range []int{1, r[0] / 2} {
+						c := base
+						c.K, c.Kind, c.Cut = k, int(fos.ShortRead), cut
+						runs++
+						if !vt.CheckOne(rec, "transform-fault", c, checkTF) {
+							return
+						}
+					}
+				}
 				if ops[k].Write && ops[k].N > 0 {
 					kinds = append(kinds, fos.ShortWriteThenFail)
 					cuts = []int{0, 1, ops[k].N / 2, ops[k].N - 1}
